@@ -140,7 +140,10 @@ func (k *Case) render(b *built) (string, bool) {
 		ints[i] = certField(crt)
 	}
 	js, _ := json.Marshal(k)
-	return fmt.Sprintf("st=chain ints=%s roots=%s %s case=x%s", strings.Join(ints, "|"), certField(b.root), names, hex.EncodeToString(js)), true
+	// external input of the root selection in authority.init: does the root's key verify the last
+	// intermediate's signature (computed with the same crypto/x509 call)
+	signs := b.ints[len(b.ints)-1].CheckSignatureFrom(b.root) == nil
+	return fmt.Sprintf("st=chain ints=%s roots=%s~%s %s case=x%s", strings.Join(ints, "|"), certField(b.root), c.B(signs), names, hex.EncodeToString(js)), true
 }
 
 func verify(leaf *x509.Certificate, chain []*x509.Certificate, root *x509.Certificate) string {
